@@ -100,6 +100,8 @@ func keySets(tier string, rng *Rng, forFs bool) [][]string {
 		{"é/1", "e/2", "z", "é"},
 		{"x/y/z/w", "x/y", "x-y/z", "x/y!"},
 		{"dir/sub/a", "dir/sub/b", "dir/sub2/c", "dir2/d", "dir-", "dir.", "dir0"},
+		// the top of the code-point range: 4-byte sequences sort after every 3-byte one (keys stay within the characters XML 1.0 can carry)
+		{"docs/\U0001F600.txt", "docs/a", "docs/\uffee", "\U0001F600", "docs/\U0010FFFD", "docs/\u07ff"},
 	}
 	for _, r := range rich {
 		var clean []string
@@ -170,7 +172,7 @@ func runC03(tier string, seed uint64) {
 				continue // fs backends: a third of the multi-key sets in the quick tier
 			}
 			for _, k := range keys {
-				s.Put(b, k, []byte("body-of-"+k)[:5+len(k)], nil)
+				s.Put(b, k, []byte("body-of-" + k)[:5+len(k)], nil)
 			}
 			if ghost && len(keys) > 0 {
 				// a delete-marked key that must never be listed
@@ -229,7 +231,7 @@ func runC03(tier string, seed uint64) {
 		}
 		s.end()
 	}
-	sample("key sets: all subsets of size <= 2 of the 18 keys over {a,b,/} (len <= 3, not starting/ending with '/'), seeded subsets of size 3..6, and 5 'rich' sets (a-x a/x a.x; UTF-8; nested dirs)")
+	sample("key sets: all subsets of size <= 2 of the 18 keys over {a,b,/} (len <= 3, not starting/ending with '/'), seeded subsets of size 3..6, and 6 'rich' sets (a-x a/x a.x; UTF-8 incl. the top of the 3-byte range and 4-byte characters; nested dirs)")
 	sample("for each set: all 27 prefixes over {a,b,/} of length <= 3 not starting with '/', delimiter none and '/' (and 'b' on mem/bolt), V1 or V2; mem runs versioned with delete-marked ghost keys (next to a live key, below it, and behind each delimiter)")
 }
 
